@@ -23,6 +23,57 @@ CLAIMED = {
     ),
 }
 
+
+CORR = ("The model is tied to /repo on every run: the harness runs the implementation from /repo/src on generated inputs, "
+        "serialises inputs and observations to a Coq file and Coq itself (vm_compute) compares the model's result with each "
+        "observation; an independent Python oracle states the property directly for failing-input search. ")
+NOTE = ("Trusted: Coq 8.16.1 kernel + VM; the hand-written Gallina reading of the Python code (DESIGN.md 3.2, App. C); the "
+        "serializer and Corr comparison functions; generator reach (counts in the evidence). Print Assumptions for every "
+        "property theorem: Closed under the global context (copied into the evidence on every run). ")
+CLAIMED.update({
+    "C12": ("Coq theorems for all scaffolds with rows >= 1 bp and all queries 1<=a<=b, no size bound: find_overlaps never "
+            "fails, satisfies the relational brute-force spec (None iff no fragment row meets the query; else the run from the "
+            "first to the last fragment row meeting it with their scaffold coordinates), the spec determines the result, the "
+            "run is convex, and find_overlaps = the executable linear scan (filter + strip terminal gaps). The pinned "
+            "commit's variant is refuted (IndexError) and was repaired by a fix: commit. " + CORR,
+            NOTE + "Hypothesis pos_rows excludes zero-length gap rows (compared with the model only).",
+            "Coq proof (binary-search invariant, induction) + in-Coq correspondence, exhaustive on small scaffolds x all queries",
+            "DESIGN.md 6/C12"),
+    "C18": ("Coq theorem by invariant: for every source scaffold (rows >= 1 bp, distinct row objects), bait, lookup result and "
+            "every finite sequence over {discard_start, discard_end, trim_large_overhangs(e), trim_fragment(first|last, keep "
+            "flags)} that the methods accept, the result satisfies Inv: rows empty, or a contiguous run of the source in which "
+            "only the terminal fragments are shortened copies that kept their inner end, with start/end the scaffold "
+            "coordinates of what is left; hence end-start+1 = total row length, no terminal gap; the what-if overhangs equal "
+            "the overhang after really discarding; bait overlaps are interval arithmetic. " + CORR,
+            NOTE + "Python object identity is modelled by row ids (source ids >= 0 distinct; trimmed copies -1/-2).",
+            "Coq proof (invariant preserved by every operation, induction over the op list) + in-Coq correspondence after every op",
+            "DESIGN.md 6/C18"),
+    "C20": ("Coq theorems for every string / every list, no bound: the (repaired) natural key never fails, alternates text and "
+            "number so no mixed-type comparison can occur, the key order is a total order, sorting and the rank-then-name sort "
+            "succeed, return a sorted permutation and give the same key sequence from every initial order (stable on ties), "
+            "decimal numbers and I..IV compare by value, an unloc sorts between its chromosome and the next; the repaired key "
+            "equals the old one wherever the old one was defined; the old one fails on IIII (fixed by a fix: commit). " + CORR,
+            NOTE + "ASCII only; int() of more than 4300 digits (CPython limit) not modelled.",
+            "Coq proof (induction on the tokenizer, lexicographic order lemmas, sorted-permutation uniqueness) + in-Coq correspondence, exhaustive on short names",
+            "DESIGN.md 6/C20"),
+    "C04": ("Model of index_fasta_file (line scanner, flush buffer, run merging, store_info), FastaIndex.sequence_bytes and .fai "
+            "rows, compared inside Coq with the implementation on well-formed layouts (exhaustive tiny ones + random, LF/CRLF, "
+            "with/without final newline, all buffer sizes of the grid) and on a malformed stream; oracle = faidx quintuples and "
+            "run-length tiling computed from the records, every interval of short records through random access, stream-back. "
+            "Theorems in this file so far: the pinned commit's scanner drops the last residue without final newline (refuted, "
+            "fixed by a fix: commit); the general index/random-access theorems are in progress (Proofs/FastaIndex.v).",
+            NOTE, "in-Coq correspondence + naive oracle; Coq theorems for the index being added", "DESIGN.md 6/C04"),
+    "C14": ("Coq theorems, unbounded: Scaffold.reverse twice = identity on rows; one reversal keeps count, length, gaps, "
+            "intervals, names, tags and negates every strand in inverted order; complement is an involution on all 256 bytes; "
+            "reverse_complement twice = identity on every byte string; for every buffer size the minus-strand chunk iterator "
+            "delivers the reverse complement of the forward one (chunkwise: reversed list of reverse-complemented chunks). "
+            "Streaming a reversed scaffold vs the original is compared with /repo and judged by an oracle; strand-0 fragments "
+            "violate it (known finding, listed in known_findings.json). " + CORR,
+            NOTE + "The chunk theorems assume good_access (random access returns residues s..e), shown satisfiable and proved for rendered files under C04.",
+            "Coq proof (finite sweep over ascii + list induction + chunk arithmetic) + in-Coq correspondence + streaming oracle",
+            "DESIGN.md 6/C14"),
+})
+
 NOT_YET = "check not built yet in this session (see DESIGN.md section 6 for the planned theorem and correspondence)"
 
 
